@@ -192,6 +192,18 @@ Proof. repeat split; vm_compute; reflexivity. Qed.
    longer found / the name can be taken a second time; and a stale second release by a
    predecessor (e.g. its status written back below Stopping by a late drain()) that hits the
    successor which took the name while the predecessor was in post_stop *)
+(* ... a REJECTED spawn that was visible in the pid table / announced to pid lifecycle subscribers
+   (seed C10-8: pid registered before the name claim and rolled back), and a failed start whose
+   name is not released (seed C10-7: where_is hands out the ghost, here as an unknown cell 999;
+   the re-spawn is refused although nobody holds the name) *)
+Example ex_oracle_rejects_loser_pid :
+  check_C10 [ESpawn 0 (Some 7%N) false true; EPid 0; ESpawn 1 (Some 7%N) false false; EPid 1] = false
+  /\ check_C10 [ESpawn 0 (Some 7%N) false true; EPid 0; EBegin 0; EWhere 7%N (Some (999, SLive))] = false
+  /\ check_C10 [ESpawn 0 (Some 7%N) false true; EPid 0; EBegin 0; EWait 0; ESpawn 1 (Some 7%N) false false] = false
+  /\ check_C10 [ESpawn 0 (Some 7%N) false true; EPid 0; EBegin 0; EWhere 7%N None;
+                ESpawn 1 (Some 7%N) false true; EPid 1] = true.
+Proof. repeat split; vm_compute; reflexivity. Qed.
+
 Example ex_oracle_rejects_lost_entry :
   check_C10 [ESpawn 0 (Some 7%N) false true; EPid 0; ESpawn 1 (Some 7%N) false false; EWhere 7%N None] = false
   /\ check_C10 [ESpawn 0 (Some 7%N) false true; EPid 0; ESpawn 1 (Some 7%N) false false;
